@@ -35,6 +35,7 @@ class C02(GProp):
         alpha = ['a', 'a', 'b', 'c', 'comma', 'comma', 'semi', 'sp', 'bang', 'lk', 'rk']
         for i in range(2500 if tier == 'quick' else 30000):
             k = r.below(10)
+            dense = False
             if k < 4:
                 g = gen_list(r)
                 if r.chance(1, 3):
@@ -45,8 +46,15 @@ class C02(GProp):
                 g = ['stabilize', r.choice([['one', 'A'], ['recoverdef', c12mod.gen_rs(r), ['seq', 'A', 'B']], parsegen.gen_item(r, 3)])]
             elif k == 5:
                 g = ['both', ['recover', c12mod.gen_rs(r), ['one', 'A']], ['stabilize', ['recoverdef', c12mod.gen_rs(r), ['one', 'B']]]]
-            elif k == 6:
+            elif k == 6 and r.chance(1, 2):
                 g = ['repeat', 0, 'inf', ['both', [r.choice(c12mod.RCOMB), ['before', 'Comma'], ['one', 'A']], ['one', 'Comma']]]
+            elif k == 6:
+                # a repeated recover-AFTER parser (it always steps over its recovery token, so it consumes whenever it succeeds):
+                # adjacent recovery tokens, the recovery token last, none at all
+                rs = r.choice([['after', 'Semi'], ['after', 'Comma'], ['afterany', 'Semi', 'Comma']])
+                g = ['repeat', 0, 'inf', [r.choice(c12mod.RCOMB), rs, r.choice([['one', 'A'], ['seq', 'A', 'A']])]]
+                if r.chance(1, 3): g = ['both', g, ['maybe', ['any', 'A', 'B', 'Semi', 'Comma']]]
+                dense = True
             elif k == 7:
                 g = c07mod.gen_rep(r, 2)
             elif k == 8:
@@ -54,6 +62,8 @@ class C02(GProp):
             else:
                 g = ['both', ['recover', ['before', 'Semi'], ['one', 'A']], gen_list(r)]
             t = spangen.random_text(r, alpha, 12 if tier == 'quick' else 24)
+            if dense:
+                t = spangen.random_text(r, ['a', 'b', 'semi', 'semi', 'comma', 'comma', 'sp'], 10)
             if i % 9 == 8:
                 # the bracket scan with a non-trivial abort set: abort tokens before, inside and after the brackets, nested and
                 # unclosed brackets (the scan must step over every token exactly once)
